@@ -528,7 +528,8 @@ func (r *Runner) Exec(o Op) (out Out) {
 		if o.K == "tocsv" {
 			return Out{Status: "ok", Val: &Val{K: "bytes", Bytes: BStr(buf.String())}}
 		}
-		return derive(dataframe.FromCSVReader(bytes.NewReader(buf.Bytes())))
+		// read back through one of the reader kinds (chosen from the content, so that a replay takes the same one)
+		return derive(dataframe.FromCSVReader(csvSource(Op{Bytes: BStr(buf.String()), N: o.N + int64(buf.Len())})))
 	case "row":
 		row, err := df.Row(int(o.N))
 		if err != nil {
